@@ -19,7 +19,7 @@ func init() {
 			"(acquire-release) at each Acquire site outside the package, every path after a successful Acquire releases, defers the release, or returns a value that carries the handle, " +
 			"and the receiving iterator/cursor types release in Close; (evict-over-capacity) Pool.Touch evicts only across the lru.Len() > capacity edge. " +
 			"(open-installed-once) from every acquisition of the mutex, the assignment that stores a descriptor in SharedFile.file is reachable only across the file == nil edge without an Unlock in between. " +
-			"Not decided: the quantitative bound on open handles over schedules; timer liveness.",
+			"(handle-cleared-with-list-removal) in the descriptor pool a member's handle is cleared in the same critical section in which its element leaves the LRU list. Not decided: the quantitative bound on open handles over schedules; timer liveness.",
 		Assumptions: []string{"sync.Mutex semantics", "time.AfterFunc callbacks run on their own goroutine with no lock held"},
 		Run:         runC24,
 	})
